@@ -117,6 +117,16 @@ static inline cstl_iter F_(_emplace_back)(LP_ *P, L_ *l, CSTL_T v)
     l->size++;
     return n;
 }
+/* emplace(pos, v) / insert(pos, v): returns the new node */
+static inline cstl_iter F_(_emplace)(LP_ *P, L_ *l, cstl_iter pos, CSTL_T v)
+{
+    CSTL_ASSERT(F_(_valid)(P, pos) && P->owner[pos] == l->head, "std.list.emplace: pos is a valid iterator of this list [C08]");
+    cstl_iter n = F_(_alloc)(P);
+    P->alive[n] = true; P->sent[n] = false; P->val[n] = v;
+    F_(_link_before)(P, l, pos, n);
+    l->size++;
+    return n;
+}
 /* l.splice(pos, l, it): single element, same list */
 static inline void F_(_splice)(LP_ *P, L_ *l, cstl_iter pos, cstl_iter it)
 {
